@@ -161,7 +161,7 @@ CallFailed(e) ==
    ELSE IF Match(e.r.val, ref.val) THEN {} ELSE {"C02.ResultIsRef"})
   \cup (IF Len(e.rs) = 1 THEN {} ELSE {"C20.Pure"})
   \cup (IF Len(e.rr) = 1 THEN {} ELSE {"C20.RepInvariant"})
-  \cup (IF e.r.ok /\ ~WellFormed(e.r.val) THEN {"C06.WellFormed"} ELSE {})
+  \cup (IF e.r.ok /\ ~WellFormedR(e.r) THEN {"C06.WellFormed"} ELSE {})
   \cup (IF e.r.ok /\ AllWhollyKnown(e.a) /\ ~WhollyKnown(e.r.val) /\ e.api \in AllOps THEN {"C01.KnownInKnownOut"} ELSE {})
   \cup (IF e.r.ok /\ AllWhollyKnown(e.a) /\ e.api \in NeverNullOps /\ e.r.val.st = "null" THEN {"C01.NeverNull"} ELSE {})
 CallNontrivial(e) == e.r.ok
@@ -180,7 +180,7 @@ WeakFailed(e, P) ==
   ELSE IF ~e.rb.ok THEN {P \o ".NoNewFailure"}
   ELSE (IF Admits(e.rb.val, e.ra.val) THEN {} ELSE {P \o ".ResultAdmits"})
        \cup (IF AllWhollyKnown(e.b) /\ ~WhollyKnown(e.rb.val) THEN {P \o ".KnownInKnownOut"} ELSE {})
-       \cup (IF ~WellFormed(e.rb.val) \/ ~WellFormed(e.ra.val) THEN {"C06.WellFormed"} ELSE {})
+       \cup (IF ~WellFormedR(e.rb) \/ ~WellFormedR(e.ra) THEN {"C06.WellFormed"} ELSE {})
 WeakNontrivial(e) == e.ra.ok /\ e.a # e.b
 
 \* --- C04 on a (marked, unmarked) pair of runs: a = marked, b = stripped
@@ -198,7 +198,7 @@ MarkFailed(e) ==
        \cup (IF Has(e, "am") /\ ~(UNION {MarksIn(e.a[i]) : i \in {j \in 1..Len(e.a) : ~e.am[j]}} \subseteq MarksIn(e.ra.val))
              THEN {"C04.DeepMarksKept"} ELSE {})
        \cup (IF e.api = "SetVal" /\ ~(UnionMarks(e.a) = TopMarks(e.ra.val)) THEN {"C04.SetHoists"} ELSE {})
-       \cup (IF ~WellFormed(e.ra.val) THEN {"C06.WellFormed"} ELSE {})
+       \cup (IF ~WellFormedR(e.ra) THEN {"C06.WellFormed"} ELSE {})
 MarkNontrivial(e) == e.ra.ok /\ UnionMarks(e.a) # {}
 
 (***************************************************************************)
